@@ -373,10 +373,277 @@ Definition c06_multi (case obs : sx) : verdict :=
   | _, _ => BadCase
   end.
 
+(* ============================ histories with maintenance (which = 4 | 5) ========================
+   One job on one file; the history interleaves what the WRITER does to the file (append, truncate, rename away /
+   rotate) with what the PLUGIN does to the job: a worker pass (watcher notification -> tryResumeJobAndUnlock ->
+   worker.work) and the periodic maintenance tick (provider.go: jobProvider.maintenanceJob on this job, followed by
+   the worker pass when the tick resumed the job).
+
+   Go (provider.go maintenanceJob)                              model [h_maint]
+   -----------------------------------------------------------  -------------------------------------------------
+   !job.isDone                      -> maintenanceResultNotDone  h_done = false            -> 1, nothing changes
+   stat.Size() != offset            -> tryResumeJobAndUnlock,    len file <> cur           -> 2, then the worker
+                                       maintenanceResultResumed                               pass [h_pass]
+   close; os.Open(filename) fails / other inode                  h_moved (renamed away or rotated)
+                                    -> deleteJobAndUnlock, ..Deleted                       -> 3, job deleted
+   otherwise job.file = re-opened file; job.seek(offset, SeekStart)                        -> 4, NOTHING changes:
+                                    -> maintenanceResultNoop     curOffset, the held-back tail (job.tail) and
+                                                                 shouldSkip are those of before the tick
+   Go (worker.go processEOF, provider.go truncateJob)           model [h_pass]
+   totalOffset > stat.Size()        -> seek(0), tail = tail[:0]  cur > len file after the reads -> cur 0, tail []
+
+   The file is modelled by its whole content [h_file]; a pass reads everything behind the read position
+   ([drop cur file]; nothing when the position is behind the end, as pread does), in the pieces [rd n avail]
+   ([rd] = [chunks] for an os.File; the theorems hold for every [rd] whose pieces concatenate to the input). *)
+Inductive hop :=
+| HAppend (a : bytes)     (* the writer appends a *)
+| HPass (n : nat)         (* write notification + one worker pass with read buffer n *)
+| HMaint (n : nat)        (* maintenance tick; a resumed job is worked on with read buffer n *)
+| HTrunc (k : Z)          (* the writer truncates the file to k bytes *)
+| HMove.                  (* the file is renamed away (kind 0) or rotated: renamed + a new file under the old name (kind 1) *)
+
+Record hst := { h_job : wst; h_done : bool; h_deleted : bool; h_moved : bool; h_file : bytes }.
+
+Definition drop (k : Z) (b : bytes) : bytes := skipn (Z.to_nat k) b.
+Definition take (k : Z) (b : bytes) : bytes := firstn (Z.to_nat k) b.
+
+Definition h_pass (c : wcfg) (rd : nat -> bytes -> list bytes) (n : nat) (hs : hst) : list emit * hst :=
+  let st := h_job hs in
+  let '(es, st1) := round c st (rd n (drop (cur st) (h_file hs))) in
+  let st2 := if cur st1 >? len (h_file hs)                       (* processEOF: totalOffset > stat.Size() -> truncateJob *)
+             then {| cur := 0; tail := []; skip := skip st1 |}
+             else st1 in
+  (es, {| h_job := st2; h_done := true; h_deleted := h_deleted hs; h_moved := h_moved hs; h_file := h_file hs |}).
+
+Definition h_maint (c : wcfg) (rd : nat -> bytes -> list bytes) (n : nat) (hs : hst) : Z * list emit * hst :=
+  if negb (h_done hs) then (1, [], hs)
+  else if negb (len (h_file hs) =? cur (h_job hs)) then
+    let '(es, hs') := h_pass c rd n hs in (2, es, hs')
+  else if h_moved hs then
+    (3, [], {| h_job := h_job hs; h_done := h_done hs; h_deleted := true; h_moved := h_moved hs; h_file := h_file hs |})
+  else (4, [], hs).
+
+(* one step: (result code of a maintenance tick, what was handed to In, new state); a deleted job does nothing *)
+Definition h_step (c : wcfg) (rd : nat -> bytes -> list bytes) (op : hop) (hs : hst) : option Z * list emit * hst :=
+  match op with
+  | HAppend a => (None, [], {| h_job := h_job hs; h_done := h_done hs; h_deleted := h_deleted hs; h_moved := h_moved hs;
+                               h_file := h_file hs ++ a |})
+  | HTrunc k => (None, [], {| h_job := h_job hs; h_done := h_done hs; h_deleted := h_deleted hs; h_moved := h_moved hs;
+                              h_file := take k (h_file hs) |})
+  | HMove => (None, [], {| h_job := h_job hs; h_done := h_done hs; h_deleted := h_deleted hs; h_moved := true;
+                           h_file := h_file hs |})
+  | HPass n => if h_deleted hs then (None, [], hs)
+               else let '(es, hs') := h_pass c rd n hs in (None, es, hs')
+  | HMaint n => if h_deleted hs then (None, [], hs)
+                else let '(r, es, hs') := h_maint c rd n hs in (Some r, es, hs')
+  end.
+
+(* a whole history: everything handed to In, in order, and the final state *)
+Fixpoint h_run (c : wcfg) (rd : nat -> bytes -> list bytes) (hs : hst) (ops : list hop) : list emit * hst :=
+  match ops with
+  | [] => ([], hs)
+  | op :: r =>
+      let '(_, e1, h1) := h_step c rd op hs in
+      let '(e2, h2) := h_run c rd h1 r in
+      (e1 ++ e2, h2)
+  end.
+
+(* everything the writer appended during the history *)
+Fixpoint appended (ops : list hop) : bytes :=
+  match ops with
+  | [] => []
+  | HAppend a :: r => a ++ appended r
+  | _ :: r => appended r
+  end.
+
+(* ---- exchange glue ----
+   case = (max cut mode #prefix (op ...))    op = (0 #append) | (1 bufsz) | (2 bufsz) | (3 size) | (4 kind)
+   obs  = one item per op 1 / 2, in order:   op 1: ((emit ...) cur filepos #tail skip)
+                                             op 2: (result (emit ...) cur filepos #tail skip)
+   filepos = -1 once the job is deleted (its file is closed).
+   Ill-formed (BadCase): an op 1 / 2 after the job was deleted; a truncation beyond the end; a truncation below the
+   read position that is no longer visible at the next pass because the file grew back over the position (the
+   documented window of the size comparison: nothing is promised for it). *)
+Definition hop_of_sx (s : sx) : option hop :=
+  match s with
+  | SL [SZ 0; SB a] => Some (HAppend a)
+  | SL [SZ 1; SZ n] => if 1 <=? n then Some (HPass (Z.to_nat n)) else None
+  | SL [SZ 2; SZ n] => if 1 <=? n then Some (HMaint (Z.to_nat n)) else None
+  | SL [SZ 3; SZ k] => if 0 <=? k then Some (HTrunc k) else None
+  | SL [SZ 4; SZ _] => Some HMove
+  | _ => None
+  end.
+
+Record hcase := { hk_cfg : wcfg; hk_mode : Z; hk_prefix : bytes; hk_ops : list hop }.
+
+Definition hcase_of_sx (s : sx) : option hcase :=
+  match s with
+  | SL [SZ mx; cut; SZ mode; SB pre; ops] =>
+      match as_bool cut, as_list hop_of_sx ops with
+      | Some cu, Some ol =>
+          if (0 <=? mx) && ((mode =? 0) || (mode =? 1))
+          then Some {| hk_cfg := {| wmax := mx; wcut := cu |}; hk_mode := mode; hk_prefix := pre; hk_ops := ol |}
+          else None
+      | _, _ => None
+      end
+  | _ => None
+  end.
+
+Definition h_init (k : hcase) : hst :=
+  {| h_job := fst (init_state (hk_mode k) (hk_prefix k)); h_done := false; h_deleted := false; h_moved := false;
+     h_file := hk_prefix k |}.
+
+Definition sx_of_hstate (which : Z) (c : wcfg) (es : list emit) (hs : hst) : list sx :=
+  let st := h_job hs in
+  [SL (map (sx_of_emit which c) es); SZ (cur st); SZ (if h_deleted hs then -1 else cur st); SB (tail st); of_bool (skip st)].
+
+(* the model's observable; None = ill-formed history. [hidden] = a truncation below the read position happened
+   since the last pass *)
+Fixpoint h_trace (which : Z) (c : wcfg) (hs : hst) (hidden : bool) (ops : list hop) : option (list sx) :=
+  match ops with
+  | [] => Some []
+  | op :: r =>
+      let '(res, es, hs') := h_step c chunks op hs in
+      match op with
+      | HAppend _ | HMove => h_trace which c hs' hidden r
+      | HTrunc k =>
+          if k <=? len (h_file hs)
+          then h_trace which c hs' (hidden || (k <? cur (h_job hs))) r
+          else None
+      | HPass _ | HMaint _ =>
+          if h_deleted hs then None
+          else
+            let ran := match op, res with HMaint _, Some 2 => true | HPass _, _ => true | _, _ => false end in
+            if ran && hidden && (cur (h_job hs) <=? len (h_file hs)) then None
+            else
+              let item := match res with
+                          | Some code => SL (SZ code :: sx_of_hstate which c es hs')
+                          | None => SL (sx_of_hstate which c es hs')
+                          end in
+              match h_trace which c hs' (if ran then false else hidden) r with
+              | Some t => Some (item :: t)
+              | None => None
+              end
+      end
+  end.
+
+(* ---- the property's executable predicate on what the implementation did over the whole history ----
+   Judged against the ideal line split only (no use of the worker model). An epoch starts at the job's start
+   offset or, after a detected truncation, at 0. Within the epoch: [p_seen] = the bytes passes have consumed,
+   [p_got] = everything delivered. After every pass: delivered = spec of consumed, curOffset = bytes consumed,
+   tail = the unterminated remainder. A maintenance tick that did not resume the job (codes 1, 4; 3 only for a
+   moved file) delivers nothing and leaves curOffset, tail and shouldSkip as they were: the tail is held back
+   until completed, whatever ticks come in between. *)
+Record pst := { p_cur0 : Z; p_sk0 : bool; p_seen : bytes; p_got : list (emit * option (list sx));
+                p_file : bytes; p_moved : bool; p_dead : bool }.
+
+Definition p_pos (p : pst) : Z := p_cur0 p + len (p_seen p).
+Definition p_sknow (p : pst) : bool := p_sk0 p && negb (has_line (p_seen p)).
+
+Definition hjudge_pass (which : Z) (c : wcfg) (p : pst) (es : list sx) (cu fpos : Z) (tl_ : bytes) (skp : sx) : option pst :=
+  match opt_map (emit_of_sx which) es, as_bool skp with
+  | Some es', Some skp' =>
+      if p_pos p >? len (p_file p) then
+        (* the file was truncated below the read position: nothing is delivered, reading starts over *)
+        match es' with
+        | [] =>
+            if (cu =? 0) && (fpos =? 0) && bytes_eqb tl_ [] && Bool.eqb skp' (p_sknow p)
+            then Some {| p_cur0 := 0; p_sk0 := p_sknow p; p_seen := []; p_got := []; p_file := p_file p;
+                         p_moved := p_moved p; p_dead := p_dead p |}
+            else None
+        | _ :: _ => None
+        end
+      else
+        let seen' := p_seen p ++ drop (p_pos p) (p_file p) in
+        let got' := p_got p ++ es' in
+        if forall2b (emit_okb c) got' (spec_emits c (p_sk0 p) (p_cur0 p) seen')
+           && Z.eqb cu (p_cur0 p + len seen') && Z.eqb fpos cu
+           && tail_relb c tl_ (snd (split_lines seen'))
+           && Bool.eqb skp' (p_sk0 p && negb (has_line seen'))
+        then Some {| p_cur0 := p_cur0 p; p_sk0 := p_sk0 p; p_seen := seen'; p_got := got'; p_file := p_file p;
+                     p_moved := p_moved p; p_dead := p_dead p |}
+        else None
+  | _, _ => None
+  end.
+
+Definition hjudge_idle (c : wcfg) (p : pst) (es : list sx) (cu fpos : Z) (tl_ : bytes) (skp : sx) (deleted : bool) : option pst :=
+  match es, as_bool skp with
+  | [], Some skp' =>
+      if Z.eqb cu (p_pos p) && Z.eqb fpos (if deleted then -1 else cu)
+         && tail_relb c tl_ (snd (split_lines (p_seen p)))
+         && Bool.eqb skp' (p_sknow p)
+      then Some {| p_cur0 := p_cur0 p; p_sk0 := p_sk0 p; p_seen := p_seen p; p_got := p_got p; p_file := p_file p;
+                   p_moved := p_moved p; p_dead := deleted |}
+      else None
+  | _, _ => None
+  end.
+
+Fixpoint hpred (which : Z) (c : wcfg) (p : pst) (ops : list hop) (obs : list sx) : bool :=
+  match ops with
+  | [] => match obs with [] => true | _ :: _ => false end
+  | HAppend a :: r =>
+      hpred which c {| p_cur0 := p_cur0 p; p_sk0 := p_sk0 p; p_seen := p_seen p; p_got := p_got p;
+                       p_file := p_file p ++ a; p_moved := p_moved p; p_dead := p_dead p |} r obs
+  | HTrunc k :: r =>
+      hpred which c {| p_cur0 := p_cur0 p; p_sk0 := p_sk0 p; p_seen := p_seen p; p_got := p_got p;
+                       p_file := take k (p_file p); p_moved := p_moved p; p_dead := p_dead p |} r obs
+  | HMove :: r =>
+      hpred which c {| p_cur0 := p_cur0 p; p_sk0 := p_sk0 p; p_seen := p_seen p; p_got := p_got p;
+                       p_file := p_file p; p_moved := true; p_dead := p_dead p |} r obs
+  | HPass _ :: r =>
+      match obs with
+      | SL [SL es; SZ cu; SZ fpos; SB tl_; skp] :: obs' =>
+          if p_dead p then false
+          else match hjudge_pass which c p es cu fpos tl_ skp with
+               | Some p' => hpred which c p' r obs'
+               | None => false
+               end
+      | _ => false
+      end
+  | HMaint _ :: r =>
+      match obs with
+      | SL [SZ code; SL es; SZ cu; SZ fpos; SB tl_; skp] :: obs' =>
+          if p_dead p then false
+          else
+            let j := if code =? 2 then hjudge_pass which c p es cu fpos tl_ skp
+                     else if (code =? 1) || (code =? 4) then hjudge_idle c p es cu fpos tl_ skp false
+                     else if (code =? 3) && p_moved p then hjudge_idle c p es cu fpos tl_ skp true
+                     else None in
+            match j with
+            | Some p' => hpred which c p' r obs'
+            | None => false
+            end
+      | _ => false
+      end
+  end.
+
+Definition c06h_pred (which : Z) (k : hcase) (obs : sx) : bool :=
+  let st0 := fst (init_state (hk_mode k) (hk_prefix k)) in
+  match obs with
+  | SL ol => hpred which (hk_cfg k)
+               {| p_cur0 := cur st0; p_sk0 := skip st0; p_seen := []; p_got := []; p_file := hk_prefix k;
+                  p_moved := false; p_dead := false |} (hk_ops k) ol
+  | _ => false
+  end.
+
+(* which = 4: emit format of which 0; which = 5: of which 1 (checkInputBytes inside In) *)
+Definition c06h_run (which : Z) (case obs : sx) : verdict :=
+  match hcase_of_sx case with
+  | None => BadCase
+  | Some k =>
+      match h_trace which (hk_cfg k) (h_init k) false (hk_ops k) with
+      | None => BadCase
+      | Some t =>
+          let m := SL t in
+          if c06h_pred which k obs then (if sx_eqb m obs then Agree else Differ m) else Violates m
+      end
+  end.
+
 Definition c06_entry (which : Z) (case obs : sx) : verdict :=
   match which with
   | 0 | 1 => c06_run which case obs
   | 3 => c06_multi case obs
+  | 4 | 5 => c06h_run (which - 4) case obs
   | _ => match c06_ci_model case with
          | Some m => exact_verdict m obs
          | None => BadCase
